@@ -141,6 +141,11 @@ pub fn build(dir: &Path) -> Result<Arch, String> {
 fn put(b: &mut [u8], at: usize, v: u64) { if at + 8 <= b.len() { b[at..at + 8].copy_from_slice(&v.to_ne_bytes()) } }
 
 impl Arch {
+    /// Content length that makes an object named X exactly as large as the empty block E was.
+    pub fn fit_len(&self) -> usize {
+        (u64_at(&self.bytes, self.e.pos) as usize).saturating_sub(HDR + self.name_x.len() + 32)
+    }
+
     fn obj(&self, o: &str) -> &ObjInfo { match o { "A" => &self.a, "B" => &self.b, "C" => &self.c, _ => &self.e } }
 
     fn ptr(&self, p: &str) -> u64 {
@@ -182,6 +187,14 @@ impl Arch {
             add(format!("size.A={l}"), &|b| put(b, self.a.pos, v));
             add(format!("size.E={l}"), &|b| put(b, self.e.pos, v));
         }
+        // the size of the empty block raised by less than a header: what is left after an object of the block's
+        // original size has been put there cannot hold the header of the remainder
+        let esize = u64_at(&self.bytes, self.e.pos);
+        for k in [1u64, 2, 4, 8, 16, 32] {
+            add(format!("size.E=+{k}"), &|b| put(b, self.e.pos, esize + k));
+        }
+        add("size.E=-1".into(), &|b| put(b, self.e.pos, esize - 1));
+        add("size.A=+1".into(), &|b| put(b, self.a.pos, u64_at(&self.bytes, self.a.pos) + 1));
         add("nlen.C=2^64-1".into(), &|b| put(b, self.c.pos + 17, u64::MAX));
         add("dlen.B=2^64-1".into(), &|b| put(b, self.b.pos + 25, u64::MAX));
         add("hash_key".into(), &|b| b[7] ^= 0x55);
